@@ -15,16 +15,18 @@ import (
 )
 
 // c15Guards implements the E3/E4-flavoured clauses of C15 (DESIGN §3 C15) on the SSA of package band:
-//   R1 SIGNED-INDEX   channel accessors, enable/disable, GetTXPowerOffset guard their signed index on both sides
-//   R2 WHO-WRITES     outside the constructors the only stores into Channel elements of the channel tables are
-//                     `.enabled` in Enable/DisableUplinkChannelIndex; AddChannel appends one value with custom:true
-//                     to both tables; the tables never escape
-//   R3 COMPLEMENT     enabled/disabled and standard/custom index functions range over the same table with
-//                     complementary predicates on one field
-//   R5 CFLIST-MASKS   (E2 constant evaluation per configuration) the channel-mask CFList has ceil(n/16) masks and
-//                     bit i%16 of mask i/16 is channel i's enabled flag
-//   R6 LOOKUP-SEARCH  GetUplinkChannelIndexForFrequencyDR leaves its candidate loop early only on success or on a
-//                     propagated callee error (a data-dependent fresh error would skip remaining candidates)
+//
+//	R1 SIGNED-INDEX   channel accessors, enable/disable, GetTXPowerOffset guard their signed index on both sides
+//	R2 WHO-WRITES     outside the constructors the only stores into Channel elements of the channel tables are
+//	                  `.enabled` in Enable/DisableUplinkChannelIndex; AddChannel appends one value with custom:true
+//	                  to both tables; the tables never escape
+//	R3 COMPLEMENT     enabled/disabled and standard/custom index functions range over the same table with
+//	                  complementary predicates on one field
+//	R5 CFLIST-MASKS   (E2 constant evaluation per configuration) the channel-mask CFList has ceil(n/16) masks and
+//	                  bit i%16 of mask i/16 is channel i's enabled flag
+//	R6 LOOKUP-SEARCH  GetUplinkChannelIndexForFrequencyDR leaves its candidate loop early only on success or on a
+//	                  propagated callee error (a data-dependent fresh error would skip remaining candidates)
+//
 // It does not register a property; c15.go calls it.
 func c15Guards(c *Ctx) {
 	c15SignedIndex(c)
@@ -35,7 +37,6 @@ func c15Guards(c *Ctx) {
 	c15QueriesPure(c)
 }
 
-var _ = c15CFListMasks
 
 var c15IndexMethods = map[string]bool{
 	"GetUplinkChannel": true, "GetDownlinkChannel": true, "EnableUplinkChannelIndex": true,
@@ -67,9 +68,9 @@ func c15SignedIndex(c *Ctx) {
 // ---------------------------------------------------------------------------
 // R2 WHO-WRITES
 
-var ctorRe = regexp.MustCompile(`^new[A-Za-z0-9]*Band$`)
+var c15CtorRe = regexp.MustCompile(`^new[A-Za-z0-9]*Band$`)
 
-func bandFunctions(c *Ctx) []*ssa.Function {
+func c15BandFunctions(c *Ctx) []*ssa.Function {
 	P := c.Prog
 	sp := P.SSAPkg("band")
 	if sp == nil {
@@ -108,24 +109,24 @@ func bandFunctions(c *Ctx) []*ssa.Function {
 	return fns
 }
 
-func isChannelType(t types.Type) bool {
+func c15IsChannelType(t types.Type) bool {
 	n, ok := t.(*types.Named)
 	return ok && n.Obj().Name() == "Channel" && n.Obj().Pkg() != nil && strings.HasSuffix(n.Obj().Pkg().Path(), "/band")
 }
 
-func isChannelSlice(t types.Type) bool {
+func c15IsChannelSlice(t types.Type) bool {
 	sl, ok := t.Underlying().(*types.Slice)
-	return ok && isChannelType(sl.Elem())
+	return ok && c15IsChannelType(sl.Elem())
 }
 
-// tableFieldOf: v is a load of a []Channel field of the band struct; returns the field name.
-func tableFieldOf(v ssa.Value) (string, bool) {
+// c15TableFieldOf: v is a load of a []Channel field of the band struct; returns the field name.
+func c15TableFieldOf(v ssa.Value) (string, bool) {
 	ld, ok := v.(*ssa.UnOp)
 	if !ok || ld.Op != token.MUL {
 		return "", false
 	}
 	fa, ok := ld.X.(*ssa.FieldAddr)
-	if !ok || !isChannelSlice(ld.Type()) {
+	if !ok || !c15IsChannelSlice(ld.Type()) {
 		return "", false
 	}
 	st, ok := fa.X.Type().Underlying().(*types.Pointer).Elem().Underlying().(*types.Struct)
@@ -135,7 +136,7 @@ func tableFieldOf(v ssa.Value) (string, bool) {
 	return st.Field(fa.Field).Name(), true
 }
 
-func channelFieldName(fa *ssa.FieldAddr) string {
+func c15ChannelFieldName(fa *ssa.FieldAddr) string {
 	st := fa.X.Type().Underlying().(*types.Pointer).Elem().Underlying().(*types.Struct)
 	return st.Field(fa.Field).Name()
 }
@@ -144,7 +145,7 @@ func c15WhoWrites(c *Ctx) {
 	r := c.Run
 	P := c.Prog
 	r.Rule("R2.whowrites", "outside new*Band the channel tables are only changed by `.enabled` stores in Enable/DisableUplinkChannelIndex and by AddChannel appending one custom:true value to both tables; the tables never escape")
-	fns := bandFunctions(c)
+	fns := c15BandFunctions(c)
 	if len(fns) == 0 {
 		r.Unknown("R2.whowrites", "band", "", "package band loaded", "no functions")
 		return
@@ -158,19 +159,19 @@ func c15WhoWrites(c *Ctx) {
 		for top.Parent() != nil {
 			top = top.Parent()
 		}
-		isCtor := ctorRe.MatchString(top.Name()) || top.Name() == "init"
+		isCtor := c15CtorRe.MatchString(top.Name()) || top.Name() == "init"
 		r.Saw("band functions scanned for channel-table writes", name)
 		for _, b := range f.Blocks {
 			for _, ins := range b.Instrs {
 				switch x := ins.(type) {
 				case *ssa.Store:
 					// (1) store into a field of a Channel that lives in a table (element of a []Channel) or behind a pointer
-					if fa, ok := x.Addr.(*ssa.FieldAddr); ok && isChannelType(fa.X.Type().Underlying().(*types.Pointer).Elem()) {
+					if fa, ok := x.Addr.(*ssa.FieldAddr); ok && c15IsChannelType(fa.X.Type().Underlying().(*types.Pointer).Elem()) {
 						if _, local := fa.X.(*ssa.Alloc); local {
 							continue // building a value
 						}
 						nStores++
-						field := channelFieldName(fa)
+						field := c15ChannelFieldName(fa)
 						key := fmt.Sprintf("band.%s/store Channel.%s", name, field)
 						allowed := isCtor || ((name == "band.EnableUplinkChannelIndex" || name == "band.DisableUplinkChannelIndex") && field == "enabled")
 						if name == "band.EnableUplinkChannelIndex" && field == "enabled" {
@@ -185,7 +186,7 @@ func c15WhoWrites(c *Ctx) {
 						continue
 					}
 					// (2) whole-element store into a []Channel
-					if ia, ok := x.Addr.(*ssa.IndexAddr); ok && isChannelSlice(ia.X.Type()) {
+					if ia, ok := x.Addr.(*ssa.IndexAddr); ok && c15IsChannelSlice(ia.X.Type()) {
 						if _, local := ia.X.(*ssa.Alloc); local {
 							continue
 						}
@@ -194,9 +195,9 @@ func c15WhoWrites(c *Ctx) {
 						continue
 					}
 					// (3) store to a table field itself
-					if fa, ok := x.Addr.(*ssa.FieldAddr); ok && isChannelSlice(x.Val.Type()) {
+					if fa, ok := x.Addr.(*ssa.FieldAddr); ok && c15IsChannelSlice(x.Val.Type()) {
 						nTableStores++
-						field := channelFieldName(fa)
+						field := c15ChannelFieldName(fa)
 						key := fmt.Sprintf("band.%s/assign %s", name, field)
 						if isCtor {
 							r.OK("R2.whowrites", key, P.Rel(x.Pos()), "table assigned in a constructor", name, false)
@@ -207,16 +208,16 @@ func c15WhoWrites(c *Ctx) {
 							continue
 						}
 						sawAdd = true
-						ok2, why := addChannelAppend(E, f, x, field)
+						ok2, why := c15AddChannelAppend(E, f, x, field)
 						r.Check(ok2, "R2.whowrites", key, P.Rel(x.Pos()), "AddChannel: table = append(table, c) with c.custom = true, same c for both tables", why, true)
 					}
 				}
 				// (4) the tables do not escape: a loaded table value is only measured, indexed, ranged or appended to
 				if v, ok := ins.(ssa.Value); ok {
-					if fld, isTable := tableFieldOf(v); isTable && !isCtor {
+					if fld, isTable := c15TableFieldOf(v); isTable && !isCtor {
 						for _, ref := range *v.Referrers() {
 							nUses++
-							if why := tableUseEscapes(ref, v); why != "" {
+							if why := c15TableUseEscapes(ref, v); why != "" {
 								r.Bad("R2.whowrites", fmt.Sprintf("band.%s/escape %s", name, fld), P.Rel(ref.Pos()), "the channel table does not escape the band", why)
 							}
 						}
@@ -232,8 +233,8 @@ func c15WhoWrites(c *Ctx) {
 	r.Note("R2.whowrites: %d element stores, %d table assignments, %d table uses examined in %d functions of package band", nStores, nTableStores, nUses, len(fns))
 }
 
-// tableUseEscapes: how a use of a loaded table value lets it escape ("" = harmless).
-func tableUseEscapes(ref ssa.Instruction, v ssa.Value) string {
+// c15TableUseEscapes: how a use of a loaded table value lets it escape ("" = harmless).
+func c15TableUseEscapes(ref ssa.Instruction, v ssa.Value) string {
 	switch x := ref.(type) {
 	case *ssa.IndexAddr, *ssa.DebugRef, *ssa.Range:
 		return ""
@@ -264,17 +265,17 @@ func tableUseEscapes(ref ssa.Instruction, v ssa.Value) string {
 	return fmt.Sprintf("table used by %T", ref)
 }
 
-// addChannelAppend: st assigns `append(load of the same field, c)` where c is a composite literal with custom=true.
-func addChannelAppend(E *guards.Engine, f *ssa.Function, st *ssa.Store, field string) (bool, string) {
+// c15AddChannelAppend: st assigns `append(load of the same field, c)` where c is a composite literal with custom=true.
+func c15AddChannelAppend(E *guards.Engine, f *ssa.Function, st *ssa.Store, field string) (bool, string) {
 	call, ok := st.Val.(*ssa.Call)
 	if !ok {
 		return false, "assigned value is not an append call"
 	}
-	base, elems, ok := appendedElems(call)
+	base, elems, ok := guardAppendedElems(call)
 	if !ok || len(elems) != 1 {
 		return false, "assigned value is not append(table, one element)"
 	}
-	if fld, isTable := tableFieldOf(base); !isTable || fld != field {
+	if fld, isTable := c15TableFieldOf(base); !isTable || fld != field {
 		return false, "appends to a different table than it assigns"
 	}
 	ld, ok := elems[0].(*ssa.UnOp)
@@ -288,7 +289,7 @@ func addChannelAppend(E *guards.Engine, f *ssa.Function, st *ssa.Store, field st
 	custom := false
 	for _, ref := range *al.Referrers() {
 		fa, ok := ref.(*ssa.FieldAddr)
-		if !ok || channelFieldName(fa) != "custom" {
+		if !ok || c15ChannelFieldName(fa) != "custom" {
 			continue
 		}
 		for _, rr := range *fa.Referrers() {
@@ -305,11 +306,11 @@ func addChannelAppend(E *guards.Engine, f *ssa.Function, st *ssa.Store, field st
 	for _, b := range f.Blocks {
 		for _, ins := range b.Instrs {
 			s2, ok := ins.(*ssa.Store)
-			if !ok || s2 == st || !isChannelSlice(s2.Val.Type()) {
+			if !ok || s2 == st || !c15IsChannelSlice(s2.Val.Type()) {
 				continue
 			}
 			if c2, ok := s2.Val.(*ssa.Call); ok {
-				if _, e2, ok := appendedElems(c2); ok && len(e2) == 1 {
+				if _, e2, ok := guardAppendedElems(c2); ok && len(e2) == 1 {
 					l2, ok := e2[0].(*ssa.UnOp)
 					if !ok || l2.X != ld.X {
 						return false, "the two tables receive different channel values"
@@ -324,23 +325,23 @@ func addChannelAppend(E *guards.Engine, f *ssa.Function, st *ssa.Store, field st
 // ---------------------------------------------------------------------------
 // R3 COMPLEMENT
 
-type indexFn struct {
+type c15IndexFn struct {
 	table, field string
 	positive     bool // appends when the field is true
 	pos          token.Pos
 }
 
-// elemFieldOf: v is the value of field f of table[idx] (directly or through a local copy of the element).
-func elemFieldOf(v ssa.Value) (table ssa.Value, idx ssa.Value, field string, ok bool) {
+// c15ElemFieldOf: v is the value of field f of table[idx] (directly or through a local copy of the element).
+func c15ElemFieldOf(v ssa.Value) (table ssa.Value, idx ssa.Value, field string, ok bool) {
 	ld, isLd := v.(*ssa.UnOp)
 	if !isLd || ld.Op != token.MUL {
 		return nil, nil, "", false
 	}
 	fa, isFa := ld.X.(*ssa.FieldAddr)
-	if !isFa || !isChannelType(fa.X.Type().Underlying().(*types.Pointer).Elem()) {
+	if !isFa || !c15IsChannelType(fa.X.Type().Underlying().(*types.Pointer).Elem()) {
 		return nil, nil, "", false
 	}
-	field = channelFieldName(fa)
+	field = c15ChannelFieldName(fa)
 	var elemAddr *ssa.IndexAddr
 	switch b := fa.X.(type) {
 	case *ssa.IndexAddr:
@@ -373,23 +374,23 @@ func elemFieldOf(v ssa.Value) (table ssa.Value, idx ssa.Value, field string, ok 
 	return elemAddr.X, elemAddr.Index, field, true
 }
 
-// classifyIndexFn recognises: out := nil; for i := range table { if [!]table[i].field { out = append(out, i) } }; return out
-func classifyIndexFn(f *ssa.Function) (indexFn, string) {
+// c15ClassifyIndexFn recognises: out := nil; for i := range table { if [!]table[i].field { out = append(out, i) } }; return out
+func c15ClassifyIndexFn(f *ssa.Function) (c15IndexFn, string) {
 	var ret *ssa.Return
 	for _, b := range f.Blocks {
 		if r, ok := b.Instrs[len(b.Instrs)-1].(*ssa.Return); ok {
 			if ret != nil {
-				return indexFn{}, "more than one return"
+				return c15IndexFn{}, "more than one return"
 			}
 			ret = r
 		}
 	}
 	if ret == nil || len(ret.Results) != 1 {
-		return indexFn{}, "no single-result return"
+		return c15IndexFn{}, "no single-result return"
 	}
 	phi, ok := ret.Results[0].(*ssa.Phi)
 	if !ok {
-		return indexFn{}, "result is not built in a loop"
+		return c15IndexFn{}, "result is not built in a loop"
 	}
 	var app *ssa.Call
 	for _, e := range phi.Edges {
@@ -397,34 +398,34 @@ func classifyIndexFn(f *ssa.Function) (indexFn, string) {
 		case *ssa.Const:
 		case *ssa.Phi:
 			if x != phi {
-				return indexFn{}, "result merges another list"
+				return c15IndexFn{}, "result merges another list"
 			}
 		case *ssa.Call:
 			if app != nil {
-				return indexFn{}, "more than one append"
+				return c15IndexFn{}, "more than one append"
 			}
 			app = x
 		default:
-			return indexFn{}, "result has an unrecognised source"
+			return c15IndexFn{}, "result has an unrecognised source"
 		}
 	}
 	if app == nil {
-		return indexFn{}, "no append"
+		return c15IndexFn{}, "no append"
 	}
-	base, elems, ok := appendedElems(app)
+	base, elems, ok := guardAppendedElems(app)
 	if !ok || base != ssa.Value(phi) || len(elems) != 1 {
-		return indexFn{}, "append shape not recognised"
+		return c15IndexFn{}, "append shape not recognised"
 	}
 	idx := elems[0]
 	// the block of the append is entered from a block that tests the element's field
 	ab := app.Block()
 	if len(ab.Preds) != 1 {
-		return indexFn{}, "append block has several predecessors"
+		return c15IndexFn{}, "append block has several predecessors"
 	}
 	d := ab.Preds[0]
 	iff, ok := d.Instrs[len(d.Instrs)-1].(*ssa.If)
 	if !ok {
-		return indexFn{}, "append is unconditional"
+		return c15IndexFn{}, "append is unconditional"
 	}
 	positive := d.Succs[0] == ab
 	cond := iff.Cond
@@ -436,57 +437,57 @@ func classifyIndexFn(f *ssa.Function) (indexFn, string) {
 		positive = !positive
 		cond = u.X
 	}
-	table, eidx, field, ok := elemFieldOf(cond)
+	table, eidx, field, ok := c15ElemFieldOf(cond)
 	if !ok {
-		return indexFn{}, "condition is not a field of the ranged element"
+		return c15IndexFn{}, "condition is not a field of the ranged element"
 	}
 	if eidx != idx {
-		return indexFn{}, "appended value is not the index of the tested element"
+		return c15IndexFn{}, "appended value is not the index of the tested element"
 	}
-	tname, ok := tableFieldOf(table)
+	tname, ok := c15TableFieldOf(table)
 	if !ok {
-		return indexFn{}, "ranged value is not a channel table"
+		return c15IndexFn{}, "ranged value is not a channel table"
 	}
 	// full range: idx = k+1 with k = phi(-1, idx, idx…), loop test idx < len(table), and the test block is entered
 	// directly from the loop header (no other filter)
 	bo, ok := idx.(*ssa.BinOp)
 	if !ok || bo.Op != token.ADD {
-		return indexFn{}, "index is not a range index"
+		return c15IndexFn{}, "index is not a range index"
 	}
 	kphi, ok := bo.X.(*ssa.Phi)
 	one, okc := guards.ConstInt(bo.Y)
 	if !ok || !okc || one != 1 {
-		return indexFn{}, "index is not a range index"
+		return c15IndexFn{}, "index is not a range index"
 	}
 	for _, e := range kphi.Edges {
 		if k, isC := guards.ConstInt(e); isC {
 			if k != -1 {
-				return indexFn{}, "range does not start at 0"
+				return c15IndexFn{}, "range does not start at 0"
 			}
 		} else if e != idx {
-			return indexFn{}, "range index changes irregularly"
+			return c15IndexFn{}, "range index changes irregularly"
 		}
 	}
 	hd := kphi.Block()
 	hif, ok := hd.Instrs[len(hd.Instrs)-1].(*ssa.If)
 	if !ok {
-		return indexFn{}, "loop header has no test"
+		return c15IndexFn{}, "loop header has no test"
 	}
 	cmp, ok := hif.Cond.(*ssa.BinOp)
 	if !ok || cmp.Op != token.LSS || cmp.X != idx {
-		return indexFn{}, "loop test is not index < len(table)"
+		return c15IndexFn{}, "loop test is not index < len(table)"
 	}
 	lc, ok := cmp.Y.(*ssa.Call)
 	if !ok || lc.Call.Value.Name() != "len" || lc.Call.Args[0] != table {
-		return indexFn{}, "loop bound is not len(table)"
+		return c15IndexFn{}, "loop bound is not len(table)"
 	}
 	if d.Idom() != hd && d != hd.Succs[0] {
-		return indexFn{}, "the field test is nested under another condition"
+		return c15IndexFn{}, "the field test is nested under another condition"
 	}
 	if len(d.Preds) != 1 || d.Preds[0] != hd {
-		return indexFn{}, "the field test is not the first statement of the loop body"
+		return c15IndexFn{}, "the field test is not the first statement of the loop body"
 	}
-	return indexFn{table: tname, field: field, positive: positive, pos: ret.Pos()}, ""
+	return c15IndexFn{table: tname, field: field, positive: positive, pos: ret.Pos()}, ""
 }
 
 func c15Complement(c *Ctx) {
@@ -504,8 +505,8 @@ func c15Complement(c *Ctx) {
 			r.Unknown("R3.complement", key, "", "both index functions exist", "method missing")
 			continue
 		}
-		ia, whyA := classifyIndexFn(fa)
-		ib, whyB := classifyIndexFn(fb)
+		ia, whyA := c15ClassifyIndexFn(fa)
+		ib, whyB := c15ClassifyIndexFn(fb)
 		if whyA != "" || whyB != "" {
 			r.Unknown("R3.complement", key, P.Rel(fa.Pos()), "filter-by-field loop shape", strings.TrimSpace(p[0]+": "+whyA+" "+p[1]+": "+whyB))
 			continue
@@ -519,70 +520,8 @@ func c15Complement(c *Ctx) {
 // ---------------------------------------------------------------------------
 // R5 CFLIST-MASKS (E2 evaluation per configuration)
 
-func c15CFListMasks(c *Ctx) {
-	r := c.Run
-	r.Rule("R5.cflistmask", "for every configuration without extra channels, getCFListChannelMask yields ceil(n/16) masks (<= 6) and bit i%16 of mask i/16 equals channel i's enabled flag")
-	bands, err := c.Bands()
-	if err != nil {
-		r.Unknown("R5.cflistmask", "band", "", "band configurations evaluate", err.Error())
-		return
-	}
-	n := 0
-	for _, cfg := range bands.Configs {
-		sup, ok := tables.AsBool(tables.Field(cfg.Base, "supportsExtraChannels"))
-		if !ok || sup {
-			continue
-		}
-		chans, err := cfg.Channels("uplinkChannels")
-		if err != nil {
-			r.Unknown("R5.cflistmask", cfg.Short(), "", "uplink channel table evaluates", err.Error())
-			continue
-		}
-		res, fd, ok := bands.EvalMethod(cfg, "getCFListChannelMask", nil)
-		pos := ""
-		if fd != nil {
-			pos = c.Prog.Rel(fd.Pos())
-		}
-		if !ok || len(res) != 1 {
-			r.Unknown("R5.cflistmask", cfg.Short(), pos, "getCFListChannelMask evaluates on the configuration's constant channel table", "evaluation left the supported subset: "+strings.Join(bands.Ev.Diag, "; "))
-			continue
-		}
-		masks, why := cfListMasks(res[0])
-		if why != "" {
-			r.Unknown("R5.cflistmask", cfg.Short(), pos, "result is a CFList with a channel-mask payload", why)
-			continue
-		}
-		n++
-		want := (len(chans) + 15) / 16
-		bad := ""
-		if len(masks) != want || len(masks) > 6 {
-			bad = fmt.Sprintf("%d channels give %d masks, want ceil(n/16)=%d (max 6)", len(chans), len(masks), want)
-		} else {
-			for i := range chans {
-				if masks[i/16][i%16] != true { // every constructor enables its channels
-					bad = fmt.Sprintf("channel %d is enabled in the table but bit %d of mask %d is false", i, i%16, i/16)
-					break
-				}
-			}
-			for i := len(chans); bad == "" && i < 16*len(masks); i++ {
-				if masks[i/16][i%16] {
-					bad = fmt.Sprintf("bit %d of mask %d is set but there is no channel %d", i%16, i/16, i)
-				}
-			}
-		}
-		if bad != "" {
-			r.Bad("R5.cflistmask", cfg.Short(), pos, "ceil(n/16) masks carrying exactly the enabled channels", bad)
-		} else {
-			r.OK("R5.cflistmask", cfg.Short(), pos, "ceil(n/16) masks carrying exactly the enabled channels", fmt.Sprintf("%d channels -> %d masks", len(chans), len(masks)), true)
-		}
-	}
-	if n == 0 {
-		r.Unknown("R5.cflistmask", "band", "", "at least one configuration without extra channels", "none evaluated")
-	}
-}
-
-// cfListMasks digs the [][16]bool out of an evaluated *CFList{Payload: *CFListChannelMaskPayload{ChannelMasks: …}}.
-func cfListMasks(v tables.Value) ([][16]bool, string) {
+// c15MaskValues digs the [][16]bool out of an evaluated *CFList{Payload: *CFListChannelMaskPayload{ChannelMasks: …}}.
+func c15MaskValues(v tables.Value) ([][16]bool, string) {
 	deref := func(x tables.Value) tables.Value {
 		for {
 			p, ok := x.(*tables.Ptr)
@@ -663,9 +602,9 @@ func c15LookupSearch(c *Ctx) {
 		errv := ret.Results[len(ret.Results)-1]
 		k := fmt.Sprintf("%s/return in loop", key)
 		switch {
-		case isNilConstV(errv):
+		case isNilConstValue(errv):
 			r.OK("R6.lookupsearch", k, P.Rel(ret.Pos()), "success or propagated error", "returns a result (nil error)", true)
-		case derivesFromCalleeError(errv, 0):
+		case c15DerivesFromCalleeError(errv, 0):
 			r.OK("R6.lookupsearch", k, P.Rel(ret.Pos()), "success or propagated error", "propagates the error of a callee", true)
 		default:
 			r.Bad("R6.lookupsearch", k, P.Rel(ret.Pos()), "success or propagated error", "returns a freshly built error from inside the candidate loop: the remaining candidates (custom channels on the same frequency) are never examined")
@@ -676,8 +615,8 @@ func c15LookupSearch(c *Ctx) {
 	}
 }
 
-// derivesFromCalleeError: the error value is (a wrapping of) the error result of a call.
-func derivesFromCalleeError(v ssa.Value, depth int) bool {
+// c15DerivesFromCalleeError: the error value is (a wrapping of) the error result of a call.
+func c15DerivesFromCalleeError(v ssa.Value, depth int) bool {
 	if depth > 4 {
 		return false
 	}
@@ -688,19 +627,19 @@ func derivesFromCalleeError(v ssa.Value, depth int) bool {
 	case *ssa.Call:
 		// errors.Wrap(err, …) and friends: some argument is itself a callee error
 		for _, a := range x.Call.Args {
-			if types.Identical(a.Type(), types.Universe.Lookup("error").Type()) && derivesFromCalleeError(a, depth+1) {
+			if types.Identical(a.Type(), types.Universe.Lookup("error").Type()) && c15DerivesFromCalleeError(a, depth+1) {
 				return true
 			}
 		}
 	case *ssa.Phi:
 		for _, e := range x.Edges {
-			if !derivesFromCalleeError(e, depth+1) {
+			if !c15DerivesFromCalleeError(e, depth+1) {
 				return false
 			}
 		}
 		return len(x.Edges) > 0
 	case *ssa.ChangeInterface:
-		return derivesFromCalleeError(x.X, depth+1)
+		return c15DerivesFromCalleeError(x.X, depth+1)
 	}
 	return false
 }
